@@ -50,13 +50,6 @@ impl LazyDiskCache {
         }
     }
 
-    fn capacity(&self) -> u64 {
-        match self {
-            LazyDiskCache::Uninit { max_size, .. } => *max_size,
-            LazyDiskCache::Init(d) => d.capacity(),
-        }
-    }
-
     fn path(&self) -> &Path {
         match self {
             LazyDiskCache::Uninit { root, .. } => root.as_ref(),
@@ -74,6 +67,8 @@ pub struct DiskCache {
     preprocessor_cache_mode_config: PreprocessorCacheModeConfig,
     preprocessor_cache: Arc<Mutex<LazyDiskCache>>,
     rw_mode: CacheMode,
+    /// The configured maximum size (what `max_size` reports).
+    max_size: u64,
 }
 
 impl DiskCache {
@@ -85,10 +80,17 @@ impl DiskCache {
         preprocessor_cache_mode_config: PreprocessorCacheModeConfig,
         rw_mode: CacheMode,
     ) -> DiskCache {
+        // A read-only cache never stores anything, so there is nothing to make room
+        // for: opening it must not evict entries of a directory that is larger than
+        // the configured size.
+        let index_size = match rw_mode {
+            CacheMode::ReadOnly => u64::MAX,
+            CacheMode::ReadWrite => max_size,
+        };
         DiskCache {
             lru: Arc::new(Mutex::new(LazyDiskCache::Uninit {
                 root: root.as_ref().to_os_string(),
-                max_size,
+                max_size: index_size,
             })),
             pool: pool.clone(),
             preprocessor_cache_mode_config,
@@ -96,9 +98,10 @@ impl DiskCache {
                 root: Path::new(root.as_ref())
                     .join("preprocessor")
                     .into_os_string(),
-                max_size,
+                max_size: index_size,
             })),
             rw_mode,
+            max_size,
         }
     }
 }
@@ -176,7 +179,7 @@ impl Storage for DiskCache {
         Ok(self.lru.lock().unwrap().get().map(|l| l.size()))
     }
     async fn max_size(&self) -> Result<Option<u64>> {
-        Ok(Some(self.lru.lock().unwrap().capacity()))
+        Ok(Some(self.max_size))
     }
     fn preprocessor_cache_mode_config(&self) -> PreprocessorCacheModeConfig {
         self.preprocessor_cache_mode_config
